@@ -135,7 +135,15 @@ class C03(core.Check):
                 ro = cur != 0 and r.random() < 0.45
                 typ = r.choice(['MARKET', 'LIMIT', 'STOP'])
                 p = prices[i] if typ == 'MARKET' else max(0.5, prices[i] + r.choice([-3, -1, -0.25, 0.25, 1, 3]))
-                if ro:
+                # a twin: a reduce-only order with the side, quantity and price of a plain order that is already resting
+                # on the closing side (cancelling one must not release the other's margin)
+                twins = [o for k_, o in enumerate(w.s.orders) if o.status == 'ACTIVE' and not o.reduce_only
+                         and o.symbol == acctcorr.SYMS[i] and o.type != 'MARKET' and cur != 0
+                         and o.side == ('sell' if cur > 0 else 'buy')]
+                twin = r.choice(twins) if twins and r.random() < 0.5 else None
+                if twin is not None:
+                    ro, typ, side, q, p = True, twin.type, twin.side, float(abs(twin.qty)), float(twin.price)
+                elif ro:
                     side = 'sell' if cur > 0 else 'buy'
                     q = float(abs(cur)) * r.choice([0.25, 0.5, 1, 1, 2])      # partial, full and oversize
                 else:
